@@ -79,17 +79,17 @@ class PostgreSQLQueryBuilder(QueryBuilder):
             raise QueryException("Returning can't be used in this query")
 
         for term in terms:
+            if isinstance(term, AggregateFunction) or (
+                isinstance(term, Term) and any(isinstance(n, AggregateFunction) for n in term.nodes_())
+            ):
+                # (an expression over an aggregate - arithmetic, CASE, a row-wise function - is an aggregate expression too)
+                raise QueryException("Aggregate functions are not allowed in returning")
             if isinstance(term, Field):
                 self._return_field(term)
             elif isinstance(term, str):
                 self._return_field_str(term)
             elif isinstance(term, ArithmeticExpression):
                 self._return_other(term)
-            elif isinstance(term, AggregateFunction) or (
-                isinstance(term, Function) and term.is_aggregate
-            ):
-                # (a row-wise function over an aggregate is an aggregate expression as well)
-                raise QueryException("Aggregate functions are not allowed in returning")
             elif isinstance(term, Function):
                 # a row-wise function is an expression over the written row like any other
                 self._return_other(term)
